@@ -221,7 +221,10 @@ func (p *Program) checkErrSite(s *errSite) errVerdict {
 		return v
 	}
 	fei := errIdx(f)
-	cfg := WalkCfg{NoInline: true, MaxVisits: 1, MaxPaths: 3000,
+	// f(g()): every result of the call goes straight into one helper the rule tables do not know: the handling of the
+	// error is looked for inside that helper (its parameters stand for the results)
+	fwd, fwdCall := forwardedTo(s)
+	cfg := WalkCfg{NoInline: true, InlineOnly: func(h *ssa.Function) bool { return fwd != nil && h == fwd }, MaxVisits: 1, MaxPaths: 3000,
 		Prune: func(key string, t *Term, val constant.Value) bool {
 			if x, ok := isNilTest(t); ok && x.V == s.errVal && val.Kind() == constant.Bool && constant.BoolVal(val) {
 				return true // e == nil: not our business
@@ -262,7 +265,7 @@ func (p *Program) checkErrSite(s *errSite) errVerdict {
 		for k, val := range pa.Asg {
 			if kt := pa.KeyTerm[k]; kt != nil {
 				if x, ok := isNilTest(kt); ok && isErrorType(x) && val.Kind() == constant.Bool && !constant.BoolVal(val) &&
-					(x.Op == "load" && x.Args[0].Op == "freevar" || x.Op == "freevar") {
+					(x.Op == "load" && x.Args[0].Op == "freevar" || x.Op == "freevar" || x.Op == "field" && len(x.Args) == 1 && (x.Args[0].Op == "param" || x.Args[0].Op == "load" && x.Args[0].Args[0].Op == "freevar")) {
 					alreadyFailed = true
 				}
 			}
@@ -290,6 +293,20 @@ func (p *Program) checkErrSite(s *errSite) errVerdict {
 			case "store":
 				if len(e.Args) == 2 && derivedFromE(e.Args[1]) && (e.Args[0].Op == "freevar" || e.Args[0].Op == "load" && e.Args[0].Args[0].Op == "freevar") {
 					storedToCaptured = true
+				}
+				// kept in a field of a shared record (the receiver of a goroutine's method): some function of the
+				// module must hand that field back as its error
+				if st, isSt := e.Instr.(*ssa.Store); isSt && len(e.Args) == 2 && derivedFromE(e.Args[1]) {
+					if fa, isFA := st.Addr.(*ssa.FieldAddr); isFA {
+						if _, isParam := fa.X.(*ssa.Parameter); isParam {
+							if fieldReturnedAsError(fa) {
+								storedToCaptured = true
+							} else {
+								v.status, v.detail = "swallowed", "the error of "+s.callee+" is kept in the field "+fieldName(fa.X.Type(), fa.Field)+" of a shared record, but no function of the module returns that field as its error"
+								return v
+							}
+						}
+					}
 				}
 			case "panic":
 			}
@@ -368,7 +385,12 @@ func (p *Program) checkErrSite(s *errSite) errVerdict {
 		}
 	}
 	// value results must not be used before the error is tested
-	if why := usedBeforeTest(p, s); why != "" {
+	if fwd != nil {
+		if why := usedBeforeTestForwarded(p, s, fwd, fwdCall); why != "" {
+			v.status, v.detail = "used-before-test", why
+			return v
+		}
+	} else if why := usedBeforeTest(p, s); why != "" {
 		v.status, v.detail = "used-before-test", why
 		return v
 	}
@@ -597,10 +619,118 @@ func panicIsConverted(f *ssa.Function) bool {
 
 // usedBeforeTest: a non-error result of the call is consumed (asserted, indexed, passed on)
 // at a point not dominated by the error's nil branch.
+// forwardedTo: all results of the call are passed, and only passed, to one call of a module helper the rule tables do
+// not know (collect(f()) ): that helper and the forwarding call.
+func forwardedTo(s *errSite) (*ssa.Function, *ssa.Call) {
+	refs := s.call.Referrers()
+	if refs == nil || s.call.Common().Signature().Results().Len() < 2 {
+		return nil, nil
+	}
+	var target *ssa.Call
+	n := 0
+	for _, r := range *refs {
+		ex, ok := r.(*ssa.Extract)
+		if !ok {
+			if _, isDbg := r.(*ssa.DebugRef); isDbg {
+				continue
+			}
+			return nil, nil
+		}
+		n++
+		er := ex.Referrers()
+		if er == nil {
+			return nil, nil
+		}
+		for _, u := range *er {
+			switch u := u.(type) {
+			case *ssa.DebugRef:
+			case *ssa.Call:
+				if target != nil && target != u {
+					return nil, nil
+				}
+				target = u
+			default:
+				return nil, nil
+			}
+		}
+	}
+	if target == nil || n != s.call.Common().Signature().Results().Len() || !isUnknownHelper(target.Common().StaticCallee()) {
+		return nil, nil
+	}
+	return target.Common().StaticCallee(), target
+}
+
+// usedBeforeTestForwarded: usedBeforeTest inside the helper that received all results: its parameters stand for them.
+func usedBeforeTestForwarded(p *Program, s *errSite, h *ssa.Function, fc *ssa.Call) string {
+	param := func(result int) ssa.Value {
+		for i, a := range fc.Common().Args {
+			if ex, ok := a.(*ssa.Extract); ok && ex.Tuple == ssa.Value(s.call) && ex.Index == result && i < len(h.Params) {
+				return h.Params[i]
+			}
+		}
+		return nil
+	}
+	errP := param(s.errIdx)
+	if errP == nil {
+		return ""
+	}
+	var oks, others []ssa.Value
+	var idx []int
+	callee := s.call.Common().StaticCallee()
+	for i := 0; i < s.call.Common().Signature().Results().Len(); i++ {
+		if i == s.errIdx {
+			continue
+		}
+		pv := param(i)
+		if pv == nil {
+			continue
+		}
+		if callee != nil && s.call.Common().Signature().Results().At(i).Type().String() == "bool" && calleeErrImpliesFalse(callee, i, s.errIdx) {
+			oks = append(oks, pv)
+		} else {
+			others = append(others, pv)
+			idx = append(idx, i)
+		}
+	}
+	return usedBeforeTestCore(p, h, errP, oks, others, idx, s.callee)
+}
+
 func usedBeforeTest(p *Program, s *errSite) string {
 	if s.call.Common().Signature().Results().Len() < 2 {
 		return ""
 	}
+	refs := s.call.Referrers()
+	if refs == nil {
+		return ""
+	}
+	okIdx := -1
+	if callee := s.call.Common().StaticCallee(); callee != nil {
+		for i := 0; i < s.call.Common().Signature().Results().Len(); i++ {
+			if i != s.errIdx && s.call.Common().Signature().Results().At(i).Type().String() == "bool" && calleeErrImpliesFalse(callee, i, s.errIdx) {
+				okIdx = i
+			}
+		}
+	}
+	var oks, others []ssa.Value
+	var idx []int
+	for _, r := range *refs {
+		ex, ok := r.(*ssa.Extract)
+		if !ok || ex.Index == s.errIdx {
+			continue
+		}
+		if ex.Index == okIdx {
+			oks = append(oks, ex)
+		} else {
+			others = append(others, ex)
+			idx = append(idx, ex.Index)
+		}
+	}
+	return usedBeforeTestCore(p, s.fn, s.errVal, oks, others, idx, s.callee)
+}
+
+// usedBeforeTestCore: in fn, a value result (others) is consumed at a point that is dominated neither by the nil branch of a
+// test of the error value nor by the true branch of an ok flag the callee returns false with every error.
+func usedBeforeTestCore(p *Program, fn *ssa.Function, errVal ssa.Value, oks, others []ssa.Value, otherIdx []int, calleeName string) string {
 	// the nil-successor blocks of tests of e
 	var nilSuccs []*ssa.BasicBlock
 	var visitE func(v ssa.Value, d int)
@@ -636,7 +766,7 @@ func usedBeforeTest(p *Program, s *errSite) string {
 				if a, ok := r.Addr.(*ssa.Alloc); ok {
 					if ar := a.Referrers(); ar != nil {
 						for _, u := range *ar {
-							if ld, ok := u.(*ssa.UnOp); ok && ld.Op == token.MUL && ld.Parent() == s.fn {
+							if ld, ok := u.(*ssa.UnOp); ok && ld.Op == token.MUL && ld.Parent() == fn {
 								visitE(ld, d+1)
 							}
 						}
@@ -669,41 +799,22 @@ func usedBeforeTest(p *Program, s *errSite) string {
 			}
 		}
 	}
-	visitE(s.errVal, 0)
+	visitE(errVal, 0)
 	// second pass: phis may only be judged once the direct tests are known
 	seenE = map[ssa.Value]bool{}
-	visitE(s.errVal, 0)
-	refs := s.call.Referrers()
-	if refs == nil {
-		return ""
-	}
+	visitE(errVal, 0)
 	// ok-flag idiom: a boolean result that the callee returns false with every error guards the others
-	okIdx := -1
-	if callee := s.call.Common().StaticCallee(); callee != nil {
-		for i := 0; i < s.call.Common().Signature().Results().Len(); i++ {
-			if i != s.errIdx && s.call.Common().Signature().Results().At(i).Type().String() == "bool" && calleeErrImpliesFalse(callee, i, s.errIdx) {
-				okIdx = i
-			}
-		}
-	}
-	if okIdx >= 0 {
-		for _, r := range *refs {
-			if ex, ok := r.(*ssa.Extract); ok && ex.Index == okIdx {
-				if er := ex.Referrers(); er != nil {
-					for _, u := range *er {
-						if iff, ok := u.(*ssa.If); ok {
-							nilSuccs = append(nilSuccs, iff.Block().Succs[0])
-						}
-					}
+	for _, okv := range oks {
+		if er := okv.Referrers(); er != nil {
+			for _, u := range *er {
+				if iff, ok := u.(*ssa.If); ok {
+					nilSuccs = append(nilSuccs, iff.Block().Succs[0])
 				}
 			}
 		}
 	}
-	for _, r := range *refs {
-		ex, ok := r.(*ssa.Extract)
-		if !ok || ex.Index == s.errIdx || ex.Index == okIdx {
-			continue
-		}
+	for oi, ex := range others {
+		exIndex := otherIdx[oi]
 		var bad string
 		var visit func(v ssa.Value, d int)
 		seen := map[ssa.Value]bool{}
@@ -737,7 +848,7 @@ func usedBeforeTest(p *Program, s *errSite) string {
 					}
 				}
 				if !dominated {
-					bad = fmt.Sprintf("result #%d of %s is used at %s before its error is tested", ex.Index, s.callee, p.Pos(u.Pos()))
+					bad = fmt.Sprintf("result #%d of %s is used at %s before its error is tested", exIndex, calleeName, p.Pos(u.Pos()))
 					return
 				}
 			}
@@ -748,6 +859,32 @@ func usedBeforeTest(p *Program, s *errSite) string {
 		}
 	}
 	return ""
+}
+
+// fieldReturnedAsError: some function of the module returns, as its error result, a load of the same field of the same record type.
+func fieldReturnedAsError(fa *ssa.FieldAddr) bool {
+	if curProgram == nil {
+		return false
+	}
+	found := false
+	for _, g := range curProgram.ModFuncs {
+		ei := errIdx(g)
+		if ei < 0 {
+			continue
+		}
+		allInstrs(g, func(_ *ssa.BasicBlock, in ssa.Instruction) {
+			r, ok := in.(*ssa.Return)
+			if !ok || ei >= len(r.Results) {
+				return
+			}
+			if u, ok := r.Results[ei].(*ssa.UnOp); ok && u.Op == token.MUL {
+				if f2, ok := u.X.(*ssa.FieldAddr); ok && f2.Field == fa.Field && types.Identical(f2.X.Type(), fa.X.Type()) {
+					found = true
+				}
+			}
+		})
+	}
+	return found
 }
 
 func isNilConst(v ssa.Value) bool {
